@@ -60,7 +60,24 @@ pub fn run_exec(cmd: &str, input: &str, env: &BTreeMap<String, String>, cwd: &st
         // so a plain write cannot deadlock
         let _ = stdin.write_all(&data);
     }
-    let out = child.wait_with_output().expect("wait");
+    // wall-clock limit: a hang (deadlock of the code under test, endless sleep) must not stall
+    // the batch; CPU time is capped separately by RLIMIT_CPU
+    let pid = child.id() as libc::pid_t;
+    let (tx, rx) = std::sync::mpsc::channel();
+    let waiter = std::thread::spawn(move || {
+        let _ = tx.send(child.wait_with_output());
+    });
+    let limit = std::time::Duration::from_secs(std::env::var("MSIM_EXEC_WALL_S").ok().and_then(|v| v.parse().ok()).unwrap_or(300));
+    let out = match rx.recv_timeout(limit) {
+        Ok(o) => o.expect("wait"),
+        Err(_) => {
+            unsafe { libc::kill(pid, libc::SIGKILL) };
+            let o = rx.recv().expect("waiter").expect("wait");
+            let _ = waiter.join();
+            return ExecOut { code: None, signal: Some(libc::SIGALRM), stdout: String::from_utf8_lossy(&o.stdout).into_owned(), stderr: "wall-clock limit exceeded (hang)".into() };
+        }
+    };
+    let _ = waiter.join();
     ExecOut {
         code: out.status.code(),
         signal: out.status.signal(),
